@@ -477,7 +477,8 @@ def run(scenario, world):
                             short(res, 500) + (res.tb if is_exc(res) else ''),
                             short(ref, 500) + (ref.tb if is_exc(ref) else '')),
                         step)
-                world.log('res', q, _loggable(res))
+                # (never log an uninitialised gradient: it is memory garbage)
+                world.log('res', q, _loggable(res_c))
             triples.append((prev, q, kind))
             prev = q
         elif o == 'fix_ll':
